@@ -66,7 +66,16 @@ class TemplateModel:
 				setattr(node, field, [self._subst(v, env) if isinstance(v, n.Node) else v for v in value])
 		return node
 
-	def _inline_sets(self, body: list, env: dict) -> None:
+	def alternatives(self, e) -> list:
+		"""the expressions a conditional expression can evaluate to (`a if c else b` -> [a, b], nested)"""
+		n = self.nodes
+		if isinstance(e, n.CondExpr):
+			return self.alternatives(e.expr1) + (self.alternatives(e.expr2) if e.expr2 is not None else [])
+		return [e]
+
+	def _inline_sets(self, body: list, env: dict) -> dict:
+		"""substitutes `set` temporaries in place and returns the bindings in force after the block (an `if` does not open a scope in Jinja: a name set in
+		its branches is visible afterwards; it then stands for a conditional expression over the branch values)"""
 		n = self.nodes
 		env = dict(env)
 		keep = []
@@ -74,13 +83,28 @@ class TemplateModel:
 			if isinstance(b, n.Assign) and isinstance(b.target, n.Name):
 				env[b.target.name] = self._subst(b.node, env)
 				continue
+			if isinstance(b, n.Assign) and isinstance(b.target, n.Tuple) and isinstance(b.node, n.Tuple) and len(b.target.items) == len(b.node.items) and all(isinstance(t, n.Name) for t in b.target.items):
+				values = [self._subst(v, env) for v in b.node.items]
+				for t, v in zip(b.target.items, values):
+					env[t.name] = v
+				continue
 			if isinstance(b, n.If):
 				b.test = self._subst(b.test, env)
-				self._inline_sets(b.body, env)
+				arms = [(b.test, self._inline_sets(b.body, env))]
 				for el in b.elif_:
 					el.test = self._subst(el.test, env)
-					self._inline_sets(el.body, env)
-				self._inline_sets(b.else_, env)
+					arms.append((el.test, self._inline_sets(el.body, env)))
+				else_env = self._inline_sets(b.else_, env)
+				names = {k for _, e_ in arms for k in e_ if e_.get(k) is not env.get(k)} | {k for k in else_env if else_env.get(k) is not env.get(k)}
+				for k in names:
+					value = else_env.get(k, env.get(k))
+					for test, e_ in reversed(arms):
+						v = e_.get(k, env.get(k))
+						if v is None and value is None:
+							continue
+						value = n.CondExpr(test, v if v is not None else n.Name(k, 'load'), value) if v is not value else value
+					if value is not None:
+						env[k] = value
 				keep.append(b)
 				continue
 			if isinstance(b, (n.For, n.Macro, n.CallBlock, n.FilterBlock, n.With)) and isinstance(getattr(b, 'body', None), list):
@@ -99,6 +123,7 @@ class TemplateModel:
 				continue
 			keep.append(self._subst(b, env))
 		body[:] = keep
+		return env
 
 	def exists(self, name: str) -> bool:
 		return name in self.sources
